@@ -46,6 +46,23 @@ def expand(reps, vs, max_changes=1):
     return extra
 
 
+def love_extraction(ck):
+    """find_love is exact on small Gaussian integers: (k, h, l) = (y5 - 1, g y1, g y3) (the slot layout SolverObs states)"""
+    import numpy as np
+    from TidalPy.RadialSolver.love import find_love
+    for a in range(-3, 4):
+        for b in range(-3, 4):
+            ys = np.array([complex(a, b), complex(7, -7), complex(b, -a), complex(5, 5), complex(a + b, a - b), complex(9, 9)], dtype=np.complex128)
+            keep = ys.copy()
+            for g in (1.0, 2.0, 0.5):
+                out = np.full(3, np.nan + 0j, dtype=np.complex128)
+                find_love(out, ys, g)
+                want = [ys[4] - 1.0, g * ys[0], g * ys[2]]
+                ck.case(("find_love", a, b, g), True)
+                if list(out) != want or not np.array_equal(ys, keep):
+                    ck.violation({"clause": "love_extraction"}, "find_love(y=%s, g=%s) = %s, slots (y5-1, g y1, g y3) = %s" % (list(ys), g, list(out), want), {})
+
+
 def run(tier, seed):
     ck = Check("C03", "model_checking", tier, seed)
     rng = random.Random(seed)
@@ -54,6 +71,7 @@ def run(tier, seed):
     outs = so.run_reps(reps)
     so.check_dispatch(ck, "C03", reps, outs)
     so.check_c03(ck, reps, outs, yscale)
+    love_extraction(ck)
     ck.cov["traces_validated_against_impl"] = len(reps)
     ck.cov["rule"] = ("every representation reachable in <= 2 changes from the base representation of 4 problems (TLC, %d unique), each one "
                       "real radial_solver call + its 100x-tighter twin; thorough adds degrees 3-4, other frequencies and random uniform bodies" % len(reps))
